@@ -90,6 +90,11 @@ def _run_case(ck, lib, case):
     ck.discard('unstable')
     return
   labels = ['rel:' + rel, 'int:%d' % integ]
+  if m.nmocap and iseed % 2:
+    # a non-unit mocap_quat is accepted user input (mj_kinematics normalises a local copy): written right before the compared
+    # calls so that every relation also covers "the call leaves this state component alone"
+    a.mocap_quat[:] = a.mocap_quat * np.random.RandomState(iseed).uniform(0.5, 2.0, (m.nmocap, 1))
+    labels.append('mocap_quat-nonunit')
   nefc_seen = 0
   if rel == 'step12':
     if integ == E.mjINT_RK4:
@@ -205,7 +210,7 @@ def _run_case(ck, lib, case):
 
 
 def strategy():
-  models = mg.models(max_bodies=5, sensors=True, mocap=True, plane=None,
+  models = mg.models(max_bodies=5, sensors=True, mocap=True, plane=None, history=True,
                      opt_kwargs=dict(flags=True, fluid=True, stress=True))
   return st.tuples(models, mg.state_seed(), st.integers(0, 20), st.integers(0, 1 << 20),
                    st.sampled_from(['step12', 'step12', 'skipPOS', 'skipVEL', 'invPOS', 'invVEL', 'pure', 'idem']),
